@@ -186,3 +186,52 @@ def iter_records(trace_iter, results, progs_by_job, loop_id="L"):
             r = results.get(e["id"], {})
             ok = ev == "done" and all(h.get("ok") for h in r.get("hosts", [])) and not r.get("hang")
             yield {"ev": "done", "id": e["id"], "ok": bool(ok)}
+
+
+def side_records(trace_iter, results, combine_probe="L_z", side_probe="o"):
+    """Events for spec/trace/SideTrace.tla: per replica of the block that combines the loop stream with
+    the outside stream (probe `combine_probe` lives there; the outside stream is produced by the block
+    of probe `side_probe`, always the RIGHT input in the generated programs)."""
+    buf, job = [], None
+    cblock, sblock = None, None
+    for e in trace_iter:
+        ev = e.get("ev")
+        if ev == "job":
+            job, buf, cblock, sblock = e["id"], [], None, None
+        elif ev == "probe":
+            b = e["at"].split(".")[0]
+            if e["id"] == combine_probe and cblock is None:
+                cblock = b
+            elif e["id"] == side_probe and sblock is None:
+                sblock = b
+        elif ev in ("recv", "start_out"):
+            buf.append(e)
+        elif ev in ("done", "hang"):
+            r = results.get(e["id"], {})
+            ok = ev == "done" and all(h.get("ok") for h in r.get("hosts", [])) and not r.get("hang")
+            yield {"ev": "job", "id": job}
+            if cblock is not None and sblock is not None:
+                for x in buf:
+                    if x["ev"] == "recv":
+                        at = x["at"].split("<")[0]
+                        if at.split(".")[0] == cblock and x["from"].split(".")[0] == sblock:
+                            for el in (x.get("els") or []):
+                                if el["k"] in ("I", "T") and isinstance(el.get("v"), int):
+                                    yield {"ev": "side", "p": at, "v": small(el["v"])}
+                    elif x["at"].split(".")[0] == cblock:
+                        el = x["el"]
+                        k, v = el["k"], el.get("v")
+                        if k in ("I", "T"):
+                            if isinstance(v, dict) and "Right" in v:
+                                yield {"ev": "out", "p": x["at"], "k": "S", "v": small(v["Right"]) if isinstance(v["Right"], int) else 0}
+                            elif isinstance(v, dict) and "Left" in v:
+                                yield {"ev": "out", "p": x["at"], "k": "L", "v": 0}
+                            elif v == "RightEnd":
+                                yield {"ev": "out", "p": x["at"], "k": "SE", "v": 0}
+                            elif v == "LeftEnd":
+                                yield {"ev": "out", "p": x["at"], "k": "LE", "v": 0}
+                        elif k == "R":
+                            yield {"ev": "out", "p": x["at"], "k": "FR", "v": 0}
+                        elif k == "X":
+                            yield {"ev": "out", "p": x["at"], "k": "X", "v": 0}
+            yield {"ev": "done", "id": e["id"], "ok": bool(ok)}
